@@ -122,3 +122,13 @@ PROPS['C05'] = dict(
     kinds={'panic', 'hang', 'no-progress'},
     rule='TODO', level_text='TODO', level_note='TODO',
 )
+
+PROPS['C01'] = dict(
+    id='C01',
+    domains=['rt', 'unm', 'build'],
+    no_model={'rt': True},
+    n=dict(quick=dict(rt=2500, unm=800, build=600), thorough=dict(rt=120000, unm=40000, build=30000)),
+    theorems=[('Properties.C01', [])],
+    kinds={'panic', 'roundtrip-lossy', 'remarshal-differs', 'policy-incoherent', 'trimmed-value'},
+    rule='TODO', level_text='TODO', level_note='TODO',
+)
